@@ -9,13 +9,20 @@
            rest (lambda with a rest parameter: arity check n >= |ps|, surplus operands collected into a list
                  bound to one more slot; covered by L0 and tail — they quantify over all expressions —
                  and singled out in C01_simulation_rest)                                        PROVED
-           set  (set! / boxes for mutated captured variables)                                  NOT PROVED (no theorem stated)
+           set  (assignment: after assignment conversion — every assigned local is rebound to a box, reads and
+                 writes go through the primitives #%box / #%unbox / #%set-box! on a heap, set! on a global is
+                 SET — the evaluator CoreS.beval (box store + mutable globals threaded) is simulated by the
+                 VM with a heap of lib/BytecodeS.v: C01_simulation_set, C01_program_simulation_set)   PROVED
+                 NOT proved: (i) the agreement of the reference store semantics CoreS.seval with
+                 beval o assign_convert (the boxing pass itself; tied by the differential check only);
+                 (ii) SETLOCAL for assigned-but-never-captured locals (the model boxes them too).
    Not covered by any theorem: MOVEREADLOCAL (last-usage moves), whole-program equivalence of the CALLGLOBAL
    peephole (only the step-level fusion lemmas C01_callglobal_fusion / _tail_fusion), the
    source-to-source passes in front of code generation; these are tied by the differential check only. *)
 From Coq Require Import String.
 From Coq Require Import ZArith List Bool Lia Arith.
-From SV Require Import lib.Core lib.Bytecode c01.Proofs_C01.
+From SV Require Import lib.Core lib.CoreS lib.Bytecode lib.BytecodeS c01.Proofs_C01.
+From SV Require c01.Proofs_C01_set.
 Import ListNotations.
 Open Scope list_scope.
 
@@ -169,6 +176,66 @@ Theorem C01_callglobaltail_fusion : forall limit C C' pc g n st fs MG arity rest
   exists s1, vm_step limit (mkVM C pc st fs MG) = SNext s1 /\
              vm_step limit s1 = vm_step limit (mkVM C' pc st fs MG).
 Proof. exact callglobaltail_fusion. Qed.
+
+(* ------------------------------------------------------------------ the assignment layer
+   Names: S.* is the VM with a heap (lib/BytecodeS.v); vrel/R1/R2/Grel/Proofs_C01_set.Srel/outcome/tail_ok of
+   Proofs_C01_set.v are qualified with [Proofs_C01_set.] where they clash with the L0 relations. *)
+
+(* Compiled code of the converted language: as C01_simulation_tail, with the box store / heap ([Proofs_C01_set.Srel]:
+   pointwise related, a source box and its VM box have the same address) and the globals ([Grel]) threaded:
+   the final store / heap and globals are again related. *)
+Theorem C01_simulation_set :
+  forall limit tco n r e st res, beval n r e st = Some res ->
+  forall ce tail C pc below slots caps fs MG H,
+    code_at C pc (S.compile tco ce (length slots) tail e) ->
+    length below = S.cur_sp fs -> Proofs_C01_set.frame_caps fs caps ->
+    Proofs_C01_set.R1 tco r ce slots caps -> Proofs_C01_set.R2 e r ce ->
+    Proofs_C01_set.Srel tco (b_store st) H -> Proofs_C01_set.Grel tco (b_glob st) MG ->
+    length fs + n <= limit ->
+    Proofs_C01_set.tail_ok tail C (pc + length (S.compile tco ce (length slots) tail e)) (length slots) fs ->
+    match res with
+    | BVal v st' => exists mv MG' H', Proofs_C01_set.vrel tco v mv /\ Proofs_C01_set.Srel tco (b_store st') H' /\
+        Proofs_C01_set.Grel tco (b_glob st') MG' /\
+        Proofs_C01_set.outcome limit tail (S.mkVM C pc (below ++ slots) fs MG H) C
+          (pc + length (S.compile tco ce (length slots) tail e)) below slots fs mv MG' H'
+    | BErr k => exists s', S.star limit (S.mkVM C pc (below ++ slots) fs MG H) s' /\ S.vm_step limit s' = S.SErr k
+    end.
+Proof. intros limit tco n. exact (Proofs_C01_set.sim_all limit tco n). Qed.
+
+(* whole programs with define / set! / boxes, from the initial states, both compilation modes *)
+Theorem C01_program_simulation_set :
+  forall limit tco n ds main res,
+  brun_program n ds main = Some res -> n <= limit ->
+  match res with
+  | BVal v _ => exists k mv s', Proofs_C01_set.vrel tco v mv /\ S.vm_program limit tco false k ds main = S.RDone mv s'
+  | BErr ek => exists k, S.vm_program limit tco false k ds main = S.RErr ek
+  end.
+Proof. exact Proofs_C01_set.s_sim_program. Qed.
+
+Theorem C01_program_render_set :
+  forall limit tco n ds main res,
+  brun_program n ds main = Some res -> n <= limit ->
+  exists k, S.render_run (S.vm_program limit tco false k ds main) = render_bresult (Some res).
+Proof. exact Proofs_C01_set.s_program_render. Qed.
+
+(* set! on a global yields the OLD value; the variable then evaluates to the assigned value *)
+Theorem C01_set_returns_old : forall n r g e st v st1 old,
+  beval n r e st = Some (BVal v st1) -> Core.lookup g (b_glob st1) = Some old ->
+  beval (S n) r (BSetG g e) st = Some (BVal old (mkB (b_store st1) ((g, v) :: b_glob st1))) /\
+  Core.lookup g ((g, v) :: b_glob st1) = Some v.
+Proof. exact Proofs_C01_set.set_global_old. Qed.
+
+(* non-vacuity of the assignment layer: a counter closure over an assigned captured local *)
+Example C01_example_set :
+  let I z := SConst (KInt z) in let V := SVar in let A f a := SApp (SVar f) a in
+  let mk := ("mk", SLam [] None (SLet [("c", I 0%Z)]
+               (SLam [] None (SSeq (SSet "c" (A "+" [V "c"; I 1%Z])) (V "c"))))) in
+  let ds := [mk; ("k", A "mk" [])] in
+  let main := SSeq (A "k" []) (SSeq (A "k" []) (A "+" [A "k" []; I 100%Z])) in
+  render_sresult (srun_program 100 ds main) = "OK I103"%string /\
+  render_bresult (brun_program 100 (S.conv_defs ds) (assign_convert main)) = "OK I103"%string /\
+  S.render_run (S.vm_program 100 true true 1000 (S.conv_defs ds) (assign_convert main)) = "OK I103"%string.
+Proof. vm_compute. repeat split. Qed.
 
 (* non-vacuity: a tail-recursive loop and a closure-returning program, both modes *)
 Example C01_example_loop :
